@@ -40,11 +40,12 @@ type ftObs struct {
 var errInjected = errors.New("injected write fault")
 
 type ftPlan struct {
-	O      sOpts
-	Stream bool
-	Puts   []string
-	Many   int // blockstore only: the first Many blocks are written by one PutMany call
-	Second int // blockstore only: after the first fault a second one is armed Second bytes into the next section written
+	O        sOpts
+	Stream   bool
+	Puts     []string
+	Many     int  // blockstore only: the first Many blocks are written by one PutMany call
+	Deferred bool // the session runs on a deferred.DeferredCarWriter for a path (kernel short writes, like the blockstore)
+	Second   int  // blockstore only: after the first fault a second one is armed Second bytes into the next section written
 }
 
 // failingStream: plain io.Writer with the same fault hook.
